@@ -70,7 +70,13 @@ def scenarios(ctx):
     for i in range(1200 if ctx.quick else 15000):
         quartet = rng.random() < 0.4
         ped = [["s1", "s2", "s3"]] + ([["s1", "s2", "s4"]] if quartet else [])
-        if rng.random() < 0.5:
+        bystander = (not quartet) and rng.random() < 0.35      # a fourth VCF column that belongs to no family
+        if bystander:
+            quartet = True                                       # four samples, one trio
+            if rng.random() < 0.5:
+                nm = rng.sample(["s1", "s2", "s3", "s4"], 4)
+                ped = [[nm[0], nm[1], nm[2]]]
+        elif rng.random() < 0.5:
             # roles independent of names and of the VCF column order (children may sort before their parents), PED lines in any order
             nm = rng.sample(["s1", "s2", "s3", "s4"][:4 if quartet else 3], 4 if quartet else 3)
             ped = [[nm[0], nm[1], nm[2]]] + ([[nm[0], nm[1], nm[3]]] if quartet else [])
@@ -84,6 +90,8 @@ def scenarios(ctx):
                 for i in range(len(ch["sites"])):
                     if rng.random() < 0.12:
                         vg[s][ci][i] = rng.choice(GTS)
+                    if bystander and s not in ped[0] and rng.random() < 0.4:
+                        vg[s][ci][i] = "./."          # missing calls of a sample OUTSIDE the family concern nobody in it
         w["vcf_gt"] = vg
         w["errfree"] = False
         w["opts"] = {"ped": True, "tag": rng.choice(["PS", "HP"]), "genetic_haplotyping": rng.random() < 0.8,
